@@ -8,7 +8,11 @@ yields exactly the normal form `specK m st`: the declared values, the schema def
 what is omitted, references interned and immediates stored in document order.
 -/
 import CamVerif.Proofs.C17Struct
+import CamVerif.Proofs.C17Kinds2
 import CamVerif.Proofs.C17Resolve
+import CamVerif.Proofs.C17Fuel
+set_option linter.unusedSimpArgs false
+set_option linter.unusedSectionVars false
 namespace CamVerif.C17
 open CamVerif CamVerif.XmlParse
 variable {F : Type} [FloatLit F]
@@ -29,6 +33,26 @@ theorem attr_base (m : AttrM) (cur : Cur) (st : St F) :
     pAttrBase m.render cur st = .ok ((specAttr m st).1, cur, (specAttr m st).2) :=
   pAttrBase_render m cur st
 
+/-- Attributes in ANY order, with any further attributes in between: whatever list `attrs`
+whose look-ups give the declared `Name` / `NameSpace` / `MergePriority` / `ExposeStatic`
+(`attribute_of` takes the first attribute of that name). -/
+theorem attr_base_any_order (attrs : List (Str × Str)) (name : Str) (ns : Option NameSpace)
+    (mp : Option MergePriority) (es : Option BoolLit)
+    (h1 : attrOf attrs cs!"Name" = some name)
+    (h2 : attrOf attrs cs!"NameSpace" = ns.map NameSpace.text)
+    (h3 : attrOf attrs cs!"MergePriority" = mp.map MergePriority.text)
+    (h4 : attrOf attrs cs!"ExposeStatic" = es.map BoolLit.text) (cur : Cur) (st : St F) :
+    pAttrBase attrs cur st =
+      .ok (⟨(internS name st).1, ns.getD .custom, mp.getD .mid, es.map BoolLit.val⟩, cur,
+        (internS name st).2) := by
+  cases ns <;> cases mp <;> cases es <;>
+    simp_all [pAttrBase, P.bind_def, ofOpt, P.ofR, intern, attrRest, internS, lookup_nameSpace,
+      lookup_mergePriority, convertToBool, BoolLit.ok, Bind.bind, Res.bind, Pure.pure,
+      pure_apply] <;> rfl
+
+example : attrOf [(cs!"Comment", cs!"x"), (cs!"ExposeStatic", cs!"No"), (cs!"Name", cs!"Gain")]
+    cs!"Name" = some cs!"Gain" := by decide
+
 /-- `NodeElementBase` in front of any further children `rest` that cannot be mistaken for
 an element-base element: all 16 optional/repeated particles at once, defaults `Beginner`,
 not deprecated, `RW`; it consumes directly following `pInvalidator`s. -/
@@ -37,6 +61,27 @@ theorem elem_base (m : ElemM) (inv : List Str) (rest : List Seg) (st : St F)
     pElemBase (flat (m.segs inv ++ rest)) st =
       .ok ((specElem m inv st).1, flat rest, (specElem m inv st).2) :=
   pElemBase_segs m inv rest st h
+
+/-- `RegisterDescription`: the root element's attributes in any order (version numbers in any
+accepted unsigned literal form), `ToolTip` optional. -/
+theorem register_description (attrs : List (Str × Str)) (mn vn pg vg : Str) (tt : Option Str)
+    (sns : StdNameSpace) (a b c d e f : UintLit)
+    (h1 : attrOf attrs cs!"ModelName" = some mn) (h2 : attrOf attrs cs!"VendorName" = some vn)
+    (h3 : attrOf attrs cs!"ToolTip" = tt)
+    (h4 : attrOf attrs cs!"StandardNameSpace" = some sns.text)
+    (h5 : attrOf attrs cs!"SchemaMajorVersion" = some a.text)
+    (h6 : attrOf attrs cs!"SchemaMinorVersion" = some b.text)
+    (h7 : attrOf attrs cs!"SchemaSubMinorVersion" = some c.text)
+    (h8 : attrOf attrs cs!"MajorVersion" = some d.text)
+    (h9 : attrOf attrs cs!"MinorVersion" = some e.text)
+    (h10 : attrOf attrs cs!"SubMinorVersion" = some f.text)
+    (h11 : attrOf attrs cs!"ProductGuid" = some pg) (h12 : attrOf attrs cs!"VersionGuid" = some vg) :
+    pRegisterDescription attrs =
+      .ok { modelName := mn, vendorName := vn, tooltip := tt, standardNameSpace := sns,
+            schemaMajor := a.val, schemaMinor := b.val, schemaSubMinor := c.val, major := d.val,
+            minor := e.val, subMinor := f.val, productGuid := pg, versionGuid := vg } := by
+  simp [pRegisterDescription, h1, h2, h3, h4, h5, h6, h7, h8, h9, h10, h11, h12, ofOpt,
+    lookup_stdNameSpace, a.ok, b.ok, c.ok, d.ok, e.ok, f.ok, Bind.bind, Res.bind, Pure.pure]
 
 /-! ## node kinds -/
 
@@ -105,6 +150,47 @@ theorem parse_render_StructReg (pr : Profile) (m : StructM) (st : St F) :
   simp [parseElem, StructM.render, pNodeDatas, P.bind_def, pStructReg_children,
     intoMaskedIntRegs_eq, specStruct, pure_apply]
 
+theorem parse_render_Float (pr : Profile) (m : FloatM F) (st : St F) :
+    parseElem pr m.render st = .ok ([.float (specFloat m st).1], (specFloat m st).2) := by
+  simp [parseElem, FloatM.render, pNodeDatas, P.bind_def, pFloat_render, pure_apply]
+
+theorem parse_render_FloatReg (pr : Profile) (m : FloatRegM) (st : St F) :
+    parseElem pr m.render st = .ok ([.floatReg (specFloatReg m st).1], (specFloatReg m st).2) := by
+  simp [parseElem, FloatRegM.render, pNodeDatas, P.bind_def, pFloatReg_render, pure_apply]
+
+theorem parse_render_String (pr : Profile) (m : StringM) (st : St F) :
+    parseElem pr m.render st = .ok ([.string (specString m st).1], (specString m st).2) := by
+  simp [parseElem, StringM.render, pNodeDatas, P.bind_def, pStringNode_render, pure_apply]
+
+theorem parse_render_Port (pr : Profile) (m : PortM) (st : St F) :
+    parseElem pr m.render st = .ok ([.port (specPort m st).1], (specPort m st).2) := by
+  simp [parseElem, PortM.render, pNodeDatas, P.bind_def, pPort_render, pure_apply]
+
+theorem parse_render_SwissKnife (pr : Profile) (m : SwissKnifeM F) (st : St F) :
+    parseElem pr m.render st =
+      .ok ([.swissKnife (specSwissKnife m st).1], (specSwissKnife m st).2) := by
+  simp [parseElem, SwissKnifeM.render, pNodeDatas, P.bind_def, pSwissKnife_render, pure_apply]
+
+theorem parse_render_Converter (pr : Profile) (m : ConverterM F) (st : St F) :
+    parseElem pr m.render st =
+      .ok ([.converter (specConverter m st).1], (specConverter m st).2) := by
+  simp [parseElem, ConverterM.render, pNodeDatas, P.bind_def, pConverter_render, pure_apply]
+
+theorem parse_render_IntConverter (pr : Profile) (m : IntConverterM F) (st : St F) :
+    parseElem pr m.render st =
+      .ok ([.intConverter (specIntConverter m st).1], (specIntConverter m st).2) := by
+  simp [parseElem, IntConverterM.render, pNodeDatas, P.bind_def, pIntConverter_render, pure_apply]
+
+/-- `Enumeration`: every `EnumEntry` is parsed and stored under its fresh name `$<symbolic>_<k>`,
+the enumeration lists the entry ids in document order.  The result is a `Res`: with debug
+assertions, storing an entry under an id that already holds a node panics (`store_node`). -/
+theorem parse_render_Enumeration (pr : Profile) (m : EnumerationM F) (st : St F) :
+    parseElem pr m.render st =
+      (specEnumeration pr m st).bind fun r => .ok ([.enumeration r.1], r.2) := by
+  simp only [parseElem, EnumerationM.render, pNodeDatas]
+  simp [P.bind_def, pEnumeration_render]
+  cases specEnumeration pr m st <;> simp [pure_apply]
+
 /-! ## references resolve -/
 
 /-- `get_or_intern` hands out an id that resolves to the name in every later builder state
@@ -120,6 +206,41 @@ theorem refs_resolve_MaskedIntReg (pr : Profile) (m : MaskedM) (st st' : St F)
     ∃ n stN, parseElem pr m.render st = .ok ([.maskedIntReg n], stN) ∧ stN.le st' ∧
       n.view st' = pureMasked m :=
   ⟨_, _, parse_render_MaskedIntReg pr m st, h, (specMasked_view m st st' h).1⟩
+
+/-- `id_by_name`: a name that was interned is found, with the id handed out, in every later
+builder state. -/
+theorem lookup_by_name (n : Str) (st st' : St F) (h : (internS n st).2.le st') :
+    findName n st'.names = some (internS n st).1 := idByName_of_le n st st' h
+
+/-- `store_node` then `node_opt`: the stored node is found under its id and no other id is
+disturbed (the model's `storeNode` is `storeNodeS`; with debug assertions a duplicate panics). -/
+theorem stored_node_found (pr : Profile) (id : Nat) (d : NodeData F) (st st' : St F)
+    (h : storeNodeS pr id d st = .ok st') :
+    st'.nodes.find? (fun x => x.1 == id) = some (id, d) ∧
+      ∀ j, j ≠ id → st'.nodes.find? (fun x => x.1 == j) = st.nodes.find? (fun x => x.1 == j) :=
+  ⟨storeNodeS_found pr id d st st' h, fun j hj => storeNodeS_other pr id j d st st' h hj⟩
+
+/-- A declared `MaskedIntReg` (a `StructReg` entry's twin included) is retrievable by its name
+with its kind once the top-level loop has stored it: `id_by_name` gives its id, `node_opt` of
+that id gives exactly the parsed node. -/
+theorem retrievable_MaskedIntReg (pr : Profile) (m : MaskedM) (st st2 : St F)
+    (hstore : storeNodeS pr (specMasked m st).1.attr.id (.maskedIntReg (specMasked m st).1)
+      (specMasked m st).2 = .ok st2) :
+    parseElem pr m.render st = .ok ([.maskedIntReg (specMasked m st).1], (specMasked m st).2) ∧
+    findName m.attr.name st2.names = some (specMasked m st).1.attr.id ∧
+    st2.nodes.find? (fun x => x.1 == (specMasked m st).1.attr.id) =
+      some ((specMasked m st).1.attr.id, .maskedIntReg (specMasked m st).1) := by
+  refine ⟨parse_render_MaskedIntReg pr m st, ?_, storeNodeS_found _ _ _ _ _ hstore⟩
+  have hle : (specMasked m st).2.le st2 := by
+    unfold storeNodeS at hstore
+    split at hstore
+    · cases hstore
+    · cases hstore; exact ⟨[], by simp⟩
+  simp only [specMasked] at hle
+  have hle := invalS_le _ _ _ _ hle
+  obtain ⟨_, hle⟩ := listS_intern _ _ _ hle
+  obtain ⟨_, hle⟩ := specReg_view _ _ _ hle
+  exact idByName_of_le m.attr.name st st2 (by simpa [specAttr] using hle)
 
 /-! ## StructReg = the equivalent set of MaskedIntReg -/
 
@@ -137,6 +258,42 @@ private theorem parseElems_twins (pr : Profile) (ms : List MaskedM) (st : St F) 
   | nil => rfl
   | cons m ms ih => simp [parseElems, parse_render_MaskedIntReg, ih, listS]
 
+private theorem struct_side_views (s : StructM) (st : St F) :
+    (specStruct s st).1.map (MaskedIntRegNode.view (specStruct s st).2) =
+      s.entries.map (fun e => pureMasked (twin s e)) := by
+  have hnames := maskedOfEntries_names (specReg s.reg st).1 (s.endianness.getD .le)
+    (listS specEntry s.entries (specReg s.reg st).2).1
+    (listS specEntry s.entries (specReg s.reg st).2).2
+  have hle : (listS specEntry s.entries (specReg s.reg st).2).2.le (specStruct s st).2 :=
+    ⟨[], by simp [specStruct, hnames]⟩
+  obtain ⟨hE, hR⟩ := listS_resolves specEntry_resolves s.entries _ _ hle
+  obtain ⟨hReg, _⟩ := specReg_view s.reg st _ hR
+  simp only [specStruct, maskedOfEntries_fst, List.map_map] at hE ⊢
+  have : ∀ e : StructEntryNode,
+      (MaskedIntRegNode.view (specStruct s st).2 ∘
+        fun e => e.toMasked (specReg s.reg st).1 (s.endianness.getD .le)) e =
+      toMaskedV (e.view (specStruct s st).2) (pureReg s.reg) (s.endianness.getD .le) := by
+    intro e
+    simp [toMasked_view, hReg]
+  simp only [specStruct] at this
+  rw [List.map_congr_left (fun e _ => this e)]
+  have h2 : ∀ (S : St F) (L : List StructEntryNode),
+      L.map (fun e => toMaskedV (e.view S) (pureReg s.reg) (s.endianness.getD .le)) =
+      (L.map (StructEntryNode.view S)).map
+        (fun v => toMaskedV v (pureReg s.reg) (s.endianness.getD .le)) := by
+    intro S L; simp [List.map_map, Function.comp_def]
+  rw [h2, hE]
+  simp [List.map_map, Function.comp_def, toMaskedV_pure]
+
+private theorem twin_side_views (s : StructM) (st : St F) :
+    (listS specMasked (s.entries.map (twin s)) st).1.map
+        (MaskedIntRegNode.view (listS specMasked (s.entries.map (twin s)) st).2) =
+      s.entries.map (fun e => pureMasked (twin s e)) := by
+  have hres : Resolves (F := F) specMasked MaskedIntRegNode.view pureMasked :=
+    fun m st st' h => specMasked_view m st st' h
+  have := (listS_resolves hres (s.entries.map (twin s)) st _ (St.le_refl _)).1
+  simpa [List.map_map, Function.comp_def] using this
+
 /-- `struct_desugar`: parsing a `StructReg` and parsing its twin — one `MaskedIntReg` per
 entry where the entry's declared properties override and all others are inherited from the
 structure (including `pError`, `pInvalidator`, and explicitly declared default values) —
@@ -151,38 +308,35 @@ theorem struct_desugar (pr : Profile) (s : StructM) (st : St F) :
       nodesT.map (MaskedIntRegNode.view stT) = s.entries.map (fun e => pureMasked (twin s e)) := by
   refine ⟨(specStruct s st).1, (specStruct s st).2,
     (listS specMasked (s.entries.map (twin s)) st).1, (listS specMasked (s.entries.map (twin s)) st).2,
-    parse_render_StructReg pr s st, ?_, ?_, ?_⟩
-  · have := parseElems_twins pr (s.entries.map (twin s)) st
-    simpa [List.map_map, Function.comp_def] using this
-  · -- the StructReg side
-    have hnames := maskedOfEntries_names (specReg s.reg st).1 (s.endianness.getD .le)
-      (listS specEntry s.entries (specReg s.reg st).2).1
-      (listS specEntry s.entries (specReg s.reg st).2).2
-    have hle : (listS specEntry s.entries (specReg s.reg st).2).2.le (specStruct s st).2 :=
-      ⟨[], by simp [specStruct, hnames]⟩
-    obtain ⟨hE, hR⟩ := listS_resolves specEntry_resolves s.entries _ _ hle
-    obtain ⟨hReg, _⟩ := specReg_view s.reg st _ hR
-    simp only [specStruct, maskedOfEntries_fst, List.map_map] at hE ⊢
-    have : ∀ e : StructEntryNode,
-        (MaskedIntRegNode.view (specStruct s st).2 ∘
-          fun e => e.toMasked (specReg s.reg st).1 (s.endianness.getD .le)) e =
-        toMaskedV (e.view (specStruct s st).2) (pureReg s.reg) (s.endianness.getD .le) := by
-      intro e
-      simp [toMasked_view, hReg]
-    simp only [specStruct] at this
-    rw [List.map_congr_left (fun e _ => this e)]
-    have h2 : ∀ (S : St F) (L : List StructEntryNode),
-        L.map (fun e => toMaskedV (e.view S) (pureReg s.reg) (s.endianness.getD .le)) =
-        (L.map (StructEntryNode.view S)).map
-          (fun v => toMaskedV v (pureReg s.reg) (s.endianness.getD .le)) := by
-      intro S L; simp [List.map_map, Function.comp_def]
-    rw [h2, hE]
-    simp [List.map_map, Function.comp_def, toMaskedV_pure]
-  · -- the twin side: `refs_resolve` of every twin
-    have hres : Resolves (F := F) specMasked MaskedIntRegNode.view pureMasked :=
-      fun m st st' h => specMasked_view m st st' h
-    have := (listS_resolves hres (s.entries.map (twin s)) st _ (St.le_refl _)).1
-    simpa [List.map_map, Function.comp_def] using this
+    parse_render_StructReg pr s st, ?_, struct_side_views s st, twin_side_views s st⟩
+  have := parseElems_twins pr (s.entries.map (twin s)) st
+  simpa [List.map_map, Function.comp_def] using this
+
+/-- … and the invalidator registrations (`CacheStoreBuilder::store_invalidator` calls) the two
+parses add to the builder are the same `(invalidator name, node name)` pairs in the same order:
+for every entry, its own `pInvalidator`s if it declares any, else the structure's. -/
+theorem struct_desugar_invalidators (pr : Profile) (s : StructM) (st : St F) :
+    ∃ (nodes : List (NodeData F)) (stS : St F) (nodesT : List (NodeData F)) (stT : St F)
+      (regsS regsT : List (Nat × Nat)),
+      parseElem pr s.render st = .ok (nodes, stS) ∧
+      parseElems pr (s.entries.map fun e => (twin s e).render) st = .ok (nodesT, stT) ∧
+      stS.invals = st.invals ++ regsS ∧ stT.invals = st.invals ++ regsT ∧
+      regsV stS regsS = regsV stT regsT ∧
+      regsV stS regsS = s.entries.flatMap fun e =>
+        (inheritList e.pInvalidators s.reg.pInvalidators).map fun i => (i, e.attr.name) := by
+  have hT := parseElems_twins pr (s.entries.map (twin s)) st
+  simp only [List.map_map, Function.comp_def] at hT
+  have eS : regsV (specStruct s st).2 ((specStruct s st).1.flatMap regsOf) =
+      (s.entries.map (fun e => pureMasked (twin s e))).flatMap regsOfV := by
+    rw [regsV_regsOf, struct_side_views]
+  have eT : regsV (listS specMasked (s.entries.map (twin s)) st).2
+      ((listS specMasked (s.entries.map (twin s)) st).1.flatMap regsOf) =
+      (s.entries.map (fun e => pureMasked (twin s e))).flatMap regsOfV := by
+    rw [regsV_regsOf, twin_side_views]
+  refine ⟨_, _, _, _, _, _, parse_render_StructReg pr s st, hT, specStruct_invals s st,
+    listS_specMasked_invals _ st, by rw [eS, eT], ?_⟩
+  rw [eS]
+  simp [List.flatMap_map, regsOfV, pureMasked, twin, pureReg, pureAttr]
 
 /-! ## Group = its members declared in place -/
 
@@ -247,6 +401,156 @@ theorem group_flat (pr : Profile) (fuel : Nat) (attrs : List (Str × Str)) (es :
   simp [pGroupChildren_members pr (fuel + 1) es h (es.length + 1) (Nat.le_refl _) st]
   cases parseElemsF pr (fuel + 1) es st <;> simp
 
+private theorem parseElemsF_eq_parseElems (pr : Profile) (es : List Elem) (h : AllElems es)
+    (D : Nat) (hD : Elem.depthList es ≤ D) (st : St F) :
+    parseElemsF pr D es st = parseElems pr es st := by
+  induction es generalizing st with
+  | nil => rfl
+  | cons e es ih =>
+    cases e with
+    | node t a c =>
+      have h' : AllElems es := by simpa [AllElems] using h
+      rw [depthList_cons, depth_node] at hD
+      have e1 : parseElemF pr D (.node t a c) st = parseElem pr (.node t a c) st := by
+        simp only [parseElemF, parseElem]
+        rw [pNodeDatas_fuel pr D (Elem.depthList c + 1) t a c (by omega) (by omega) st]
+      simp only [parseElemsF, parseElems, e1]
+      cases parseElem pr (.node t a c) st with
+      | ok r => simp only [Res.bind_ok', ih h' (by omega)]
+      | err e => rfl
+      | panic => rfl
+    | text s => exact absurd h (by simp [AllElems])
+    | comment s => exact absurd h (by simp [AllElems])
+    | pi => exact absurd h (by simp [AllElems])
+
+/-- `group_flat`, fuel-free: parsing a `Group` is parsing its members one after the other in
+place (`parseElems`: the same function the twin side of `struct_desugar` uses for sibling
+elements), for arbitrarily nested groups. -/
+theorem group_flat_members (pr : Profile) (attrs : List (Str × Str)) (es : List Elem)
+    (h : AllElems es) (st : St F) :
+    parseElem pr (.node cs!"Group" attrs es) st = parseElems pr es st := by
+  rw [← parseElemsF_eq_parseElems pr es h (Elem.depthList es) (Nat.le_refl _) st]
+  simp only [parseElem, pNodeDatas]
+  simp [pGroupChildren_members pr (Elem.depthList es) es h (es.length + 1) (Nat.le_refl _) st]
+  cases parseElemsF pr (Elem.depthList es) es st <;> simp
+
+/-! ## the document: every top-level element is parsed in place and its nodes are stored -/
+
+/-- `store_node` for every node an element produced, under the node's own id -/
+def storeAllS (pr : Profile) : List (NodeData F) → St F → R (St F)
+  | [], st => .ok st
+  | d :: ds, st => (storeNodeS pr d.attr.id d st).bind fun st' => storeAllS pr ds st'
+
+/-- the top-level loop of `parser::parse` as a fold over the declared elements -/
+def topLevelS (pr : Profile) (fuel : Nat) : List Elem → St F → R (St F)
+  | [], st => .ok st
+  | e :: es, st =>
+    (parseElemF pr fuel e st).bind fun r =>
+      (storeAllS pr r.1 r.2).bind fun st' => topLevelS pr fuel es st'
+
+private theorem storeNodes_eq (pr : Profile) (ds : List (NodeData F)) (cur : Cur) (st : St F) :
+    storeNodes pr ds cur st = (storeAllS pr ds st).bind fun st' => .ok ((), cur, st') := by
+  induction ds generalizing st with
+  | nil => rfl
+  | cons d ds ih =>
+    simp only [storeNodes, P.bind_def, storeNode_eq, storeAllS]
+    cases storeNodeS pr d.attr.id d st with
+    | ok st' => simp [ih]
+    | err e => rfl
+    | panic => rfl
+
+private theorem pTopLevel_members (pr : Profile) (fuel : Nat) (es : List Elem) (h : AllElems es)
+    (n : Nat) (hn : es.length + 1 ≤ n) (st : St F) :
+    pTopLevel pr fuel n es st = (topLevelS pr fuel es st).bind fun st' => .ok ((), [], st') := by
+  induction es generalizing n st with
+  | nil =>
+    cases n with
+    | zero => omega
+    | succ n => simp [pTopLevel, P.bind_def, next, skipJunk, topLevelS, pure_apply]
+  | cons e es ih =>
+    cases n with
+    | zero => omega
+    | succ n =>
+      cases e with
+      | node tag attrs children =>
+        have hn' : es.length + 1 ≤ n := by simp at hn; omega
+        have h' : AllElems es := by simpa [AllElems] using h
+        simp only [pTopLevel, P.bind_def, next, skipJunk, Res.bind_ok', topLevelS, parseElemF,
+          onChild_def, storeNodes_eq]
+        cases pNodeDatas pr fuel tag attrs children children st with
+        | ok r =>
+          simp only [Res.bind_ok']
+          cases storeAllS pr r.1 r.2.2 with
+          | ok st' => simp only [Res.bind_ok', ih h' n hn']
+          | err e => rfl
+          | panic => rfl
+        | err e => rfl
+        | panic => rfl
+      | text s => exact absurd h (by simp [AllElems])
+      | comment s => exact absurd h (by simp [AllElems])
+      | pi => exact absurd h (by simp [AllElems])
+
+/-- `parser::parse`: the register description from the root attributes; then every declared
+top-level element, in document order, is parsed exactly as `parseElem` describes (the
+`parse_render_K` theorems) and each node it yields is stored under its own id. -/
+theorem document_top_level (pr : Profile) (attrs : List (Str × Str)) (es : List Elem)
+    (h : AllElems es) :
+    parseDocument (F := F) pr (.node cs!"RegisterDescription" attrs es) =
+      (pRegisterDescription attrs).bind fun rd =>
+        (topLevelS pr (Elem.depthList es + 1) es St.empty).bind fun st => .ok (rd, st) := by
+  simp only [parseDocument]
+  cases pRegisterDescription attrs with
+  | ok rd =>
+    simp [Bind.bind, Res.bind, pTopLevel_members pr _ es h (es.length + 1) (Nat.le_refl _), Pure.pure]
+    cases topLevelS pr (Elem.depthList es + 1) es (St.empty (F := F)) <;> rfl
+  | err e => simp [Bind.bind, Res.bind]
+  | panic => simp [Bind.bind, Res.bind]
+
+/-- the same fold with `parseElem` (each element with its own nesting depth) -/
+def topLevel (pr : Profile) : List Elem → St F → R (St F)
+  | [], st => .ok st
+  | e :: es, st =>
+    (parseElem pr e st).bind fun r =>
+      (storeAllS pr r.1 r.2).bind fun st' => topLevel pr es st'
+
+private theorem topLevelS_eq_topLevel (pr : Profile) (es : List Elem) (h : AllElems es)
+    (D : Nat) (hD : Elem.depthList es < D) (st : St F) :
+    topLevelS pr D es st = topLevel pr es st := by
+  induction es generalizing st with
+  | nil => rfl
+  | cons e es ih =>
+    cases e with
+    | node t a c =>
+      have h' : AllElems es := by simpa [AllElems] using h
+      rw [depthList_cons, depth_node] at hD
+      have e1 : parseElemF pr D (.node t a c) st = parseElem pr (.node t a c) st := by
+        simp only [parseElemF, parseElem]
+        rw [pNodeDatas_fuel pr D (Elem.depthList c + 1) t a c (by omega) (by omega) st]
+      simp only [topLevelS, topLevel, e1]
+      cases parseElem pr (.node t a c) st with
+      | ok r =>
+        simp only [Res.bind_ok']
+        cases storeAllS pr r.1 r.2 with
+        | ok st' => simp only [Res.bind_ok', ih h' (by omega)]
+        | err e => rfl
+        | panic => rfl
+      | err e => rfl
+      | panic => rfl
+    | text s => exact absurd h (by simp [AllElems])
+    | comment s => exact absurd h (by simp [AllElems])
+    | pi => exact absurd h (by simp [AllElems])
+
+/-- the whole document in terms of `parseElem`: register description, then for every declared
+top-level element `parseElem` (as characterised by the `parse_render_K` theorems) followed by
+`store_node` of each node under its own id. -/
+theorem document_members (pr : Profile) (attrs : List (Str × Str)) (es : List Elem)
+    (h : AllElems es) :
+    parseDocument (F := F) pr (.node cs!"RegisterDescription" attrs es) =
+      (pRegisterDescription attrs).bind fun rd =>
+        (topLevel pr es St.empty).bind fun st => .ok (rd, st) := by
+  rw [document_top_level pr attrs es h,
+    topLevelS_eq_topLevel pr es h (Elem.depthList es + 1) (Nat.lt_succ_self _) St.empty]
+
 /-! ## literals -/
 
 /-- whatever `convert_to_int` accepts is taken as an immediate by the `ImmOrPNode` sniffing -/
@@ -310,5 +614,116 @@ theorem literals_float_specials :
   refine ⟨rfl, rfl, ?_⟩
   intro s h1 h2
   simp [convertToFloat, h1, h2]
+
+/-! ## non-vacuity: concrete, non-trivial declarations the theorems apply to -/
+
+section Examples
+
+/-- a float-free instance of the abstract float / formula syntax for the examples -/
+local instance exLit : FloatLit Unit where
+  inf := ()
+  negInf := ()
+  f64Min := ()
+  f64Max := ()
+  parse _ := some ()
+  ofInt _ := ()
+  formulaOk _ := true
+
+def exHex : IntLit := ⟨cs!"0x1F", 31, by decide⟩
+def exNeg : IntLit := ⟨cs!"-42", -42, by decide⟩
+def exU : UintLit := ⟨cs!"0X10", 16, by decide⟩
+def exYes : BoolLit := ⟨cs!"Yes", true, by decide⟩
+def exRef : RefName := ⟨cs!"GainRaw", by decide, by decide, by decide, by decide⟩
+
+def exAttr (n : Str) : AttrM :=
+  ⟨n, some .standard, none, some exYes, [(cs!"Comment", cs!"c")], by decide⟩
+
+def exElem : ElemM :=
+  { extension := none, tooltip := some cs!"tip", description := none, displayName := some [],
+    visibility := some .expert, docuUrl := none, isDeprecated := none,
+    eventId := some ⟨cs!"9fA0", 40864, by decide⟩, pIsImplemented := some cs!"Impl",
+    pIsAvailable := none, pIsLocked := some cs!"Lock", pBlockPolling := none,
+    imposedAccessMode := some .ro, pErrors := [cs!"E1", cs!"E2"], pAlias := none,
+    pCastAlias := some cs!"Cast" }
+
+def exNoElem : ElemM :=
+  { extension := none, tooltip := none, description := none, displayName := none,
+    visibility := none, docuUrl := none, isDeprecated := none, eventId := none,
+    pIsImplemented := none, pIsAvailable := none, pIsLocked := none, pBlockPolling := none,
+    imposedAccessMode := none, pErrors := [], pAlias := none, pCastAlias := none }
+
+/-- an Integer with hexadecimal `Value`, negative `Min`, `pMax` reference, defaults elsewhere -/
+def exInteger : IntegerM :=
+  { attr := exAttr cs!"Gain", elem := exElem, streamable := some exYes, value := .value exHex,
+    min := some (.imm exNeg), max := some (.ref exRef), inc := none, unit := some cs!"dB",
+    representation := some .ipV4, pSelected := [cs!"Sel"] }
+
+example :
+    (parseElem (F := Unit) Profile.dev exInteger.render St.empty).isOk = true := by
+  rw [parse_render_Integer]; rfl
+
+/-- the omitted `Inc` is the default 1, the declared `Min` is stored, `pMax` is a reference -/
+example : (specInteger (F := Unit) exInteger St.empty).1.inc = .imm 1 := rfl
+example : (specInteger (F := Unit) exInteger St.empty).1.representation = .ipV4 := rfl
+
+/-- `elem_base` / `reg_base` hypotheses are satisfiable by real kind-specific children -/
+example : noneStart elemTags
+    [.opt cs!"Streamable" none, .one cs!"Value" (tb cs!"5"), .many cs!"pSelected" []] = true := by
+  rfl
+example : noneStart regTags
+    [.opt cs!"Sign" none, .opt cs!"Endianess" none, .many cs!"pSelected" []] = true := by rfl
+
+def exReg (inv : List Str) : RegM :=
+  { elem := exElem, streamable := none,
+    addrs := [.address exHex, .pAddress exRef, .pIndex (some (.inl exNeg)) cs!"Idx"],
+    length := .imm ⟨cs!"4", 4, by decide⟩, accessMode := some .rw, pPort := cs!"Device",
+    cacheable := some .noCache, pollingTime := some exU, pInvalidators := inv }
+
+def exEntry (n : Str) (inv : List Str) (vis : Option Visibility) : EntryM :=
+  { attr := exAttr n, elem := { exNoElem with visibility := vis }, pInvalidators := inv,
+    accessMode := none, cacheable := some .writeThrough, pollingTime := none, streamable := none,
+    bitMask := .range exU exU, sign := some .signed, unit := none, representation := none,
+    pSelected := [] }
+
+/-- a structure with an entry that overrides `pInvalidator` / `Visibility` (to the DEFAULT value
+`Beginner`) / `Cachable` (to the default `WriteThrough`) and one that inherits everything -/
+def exStruct : StructM :=
+  { attrs := [(cs!"Comment", cs!"s")], reg := exReg [cs!"I0"], endianness := some .be,
+    entries := [exEntry cs!"A" [cs!"I1", cs!"I2"] (some .beginner), exEntry cs!"B" [] none] }
+
+example : (pureMasked (twin exStruct (exEntry cs!"A" [cs!"I1", cs!"I2"] (some .beginner)))).reg.pInvalidators
+    = [cs!"I1", cs!"I2"] := rfl
+example : (pureMasked (twin exStruct (exEntry cs!"B" [] none))).reg.pInvalidators = [cs!"I0"] := rfl
+example : (pureMasked (twin exStruct (exEntry cs!"A" [] (some .beginner)))).reg.elemBase.visibility
+    = .beginner := rfl
+example : (pureMasked (twin exStruct (exEntry cs!"B" [] none))).reg.elemBase.visibility = .expert := rfl
+example : (pureMasked (twin exStruct (exEntry cs!"A" [] none))).reg.cacheable = .writeThrough := rfl
+example : (pureMasked (twin exStruct (exEntry cs!"B" [] none))).reg.elemBase.pErrors
+    = [cs!"E1", cs!"E2"] := rfl
+
+example : ∃ nodes stS, parseElem (F := Unit) Profile.dev exStruct.render St.empty
+    = .ok (nodes, stS) ∧ nodes.length = 2 := by
+  refine ⟨_, _, parse_render_StructReg _ _ _, ?_⟩
+  simp [specStruct, maskedOfEntries_fst, exStruct, listS]
+
+/-- `refs_resolve`: the hypothesis holds for the final state itself and any extension of it -/
+example (m : MaskedM) : (specMasked (F := Unit) m St.empty).2.le (specMasked m St.empty).2 :=
+  St.le_refl _
+
+/-- `group_flat`: members are element nodes -/
+example : AllElems [exInteger.render, exStruct.render] := by simp [AllElems, IntegerM.render, StructM.render]
+
+/-- literal ranges are inhabited at the boundaries -/
+example : convertToInt (decInt I64_MIN) = .ok I64_MIN := literals_dec _ (by decide) (by decide)
+example : convertToInt (hexNat true true 0x7fffffffffffffff) = .ok 0x7fffffffffffffff :=
+  literals_hex true true _ (by decide)
+example : convertToUint (hexNat false false U64_MAX) = .ok U64_MAX :=
+  literals_uint_hex false false _ (by decide)
+example : decInt (-42) = cs!"-42" := by
+  simp [decInt, natDigits, digitChar]
+example : hexNat false true 255 = cs!"0xFF" := by
+  simp [hexNat, natDigits, digitChar]
+
+end Examples
 
 end CamVerif.C17
